@@ -30,7 +30,9 @@ def prepare(tag):
     root = f"/tmp/ms-{tag}"
     shutil.rmtree(root, ignore_errors=True)
     os.makedirs(root)
-    sh(f"rsync -a --exclude target --exclude .git /repo/ {root}/repo/")
+    # the committed tree, not the working tree: immune to a patch that is temporarily applied to /repo
+    os.makedirs(f"{root}/repo")
+    sh(f"git -C /repo archive HEAD | tar -x -C {root}/repo")
     os.makedirs(f"{root}/sim/.cargo")
     shutil.copytree(f"{VERIF}/sim/src", f"{root}/sim/src")
     os.symlink(f"{VERIF}/roots", f"{root}/roots")
